@@ -1141,6 +1141,9 @@ fn source_enumeration(cx: &mut Cx) -> Vec<String> {
             None if !public.contains(f) => {
                 table.insert(format!("fn {}", f), json!("private function not in the harness's table: reachable only through run(), i.e. through the bytes of the cases (correspondence)"));
             }
+            None if crate::c15::call_sites(&repo_dir(), f) == 0 => {
+                table.insert(format!("fn {}", f), json!("public, but called nowhere in src/ (unreachable for now): not driven; a call site makes it a violation"));
+            }
             None => {
                 table.insert(format!("fn {}", f), json!("UNACCOUNTED"));
                 cx.out.violation(&format!("C04:coverage:fn-not-accounted:{}", f), "a PUBLIC function of connection_optimized.rs is neither driven nor listed with the reason why not (harness/src/c04.rs fn_coverage)", json!({"fn": f}));
@@ -2408,6 +2411,7 @@ fn mutations_self_tested() -> serde_json::Value {
       {"mutation": "repaired code: GETs collected below batch_threshold are answered in reverse order", "class": "7 history shapes / 9 observations", "before": "n/a", "after": "C04:reply-differs-from-alone, C04:write:not-a-prefix-of-the-reply-stream, C04:malformed-alters-earlier-replies"},
       {"mutation": "repaired code: try_fast_get takes a frame one byte short of complete (`+ 1 <`)", "class": "3 equality", "before": "n/a", "after": "C04:crash:well-formed-stream (split_to out of bounds 21 <= 20) with the pipeline and the cut"},
       {"mutation": "repaired code: the fast path is entered during MULTI", "class": "8 connection state", "before": "n/a", "after": "507 ops disagree (SET inside MULTI answered +OK instead of QUEUED); no property-level failing input from the twin oracle (sent alone the command takes the same path): the reference executor of the model is the judge"},
+      {"mutation": "repaired code (/repo 25f2d11), the idea of the round-7 seed: memmem pre-check in both collectors counting GET / SET headers anywhere in the buffer, consumed runs below the threshold dropped again", "class": "5 capacity thresholds / 7 history shapes", "before": "n/a", "after": "C04:reply-count:missing-reply (64 commands, 63 replies), C04:reply-withheld:until-more-input, C04:write:not-a-prefix-of-the-reply-stream"},
       {"mutation": "run(): a failed flush is ignored", "class": "6 fault kinds", "before": "missed (exit 0)", "after": "model disagreement on 152 W ops (number of reads made after the failed flush); no property-level failing input: the bytes are still a prefix of the reply stream"}
     ])
 }
